@@ -691,11 +691,11 @@ class UnionUnmarshaller(AbstractUnmarshaller[UnionT], tp.Generic[UnionT]):
         self.stack = inspection.args(t, evaluate=True)
         if inspection.isoptionaltype(t):
             # Always check for null first, wherever it was declared.
-            nulls = (None, types.NoneType)
-            self.stack = (
-                types.NoneType,
-                *(a for a in self.stack if a not in nulls),
-            )
+            #   (A member may name `None` through an alias or NewType.)
+            nulls = [
+                a for a in self.stack if inspection.isnonetype(inspection.unwrap(a))
+            ]
+            self.stack = (*nulls[:1], *(a for a in self.stack if a not in nulls))
 
         self.ordered_routines = [self.context[typ] for typ in self.stack]
 
